@@ -31,7 +31,7 @@ let fserr_str e = match e with
 exception Model_panic of n
 let obs_str = function
   | ONext Pending | OData Pending -> "pend"
-  | ONext (Ready (Panic s)) | OData (Ready (Panic s)) -> raise (Model_panic s)
+  | ONext (Ready (Panic s)) | OData (Ready (Panic s)) -> "panic:" ^ string_of_n s
   | ONext (Ready (Err e)) | OData (Ready (Err e)) -> fserr_str e
   | ONext (Ready (Ok None)) -> "end"
   | ONext (Ready (Ok (Some f))) -> frame_str f
@@ -88,11 +88,33 @@ let handle ws = match ws with
       m ^ " | " ^ String.concat " " (("S" :: tok_strs toks) @ ["T"; tail_str tl ^ code])
   | ["fd"; h] ->
       let v = bytes_of_hex h in
-      (match frame_decode v with
+      let m = (match frame_decode v with
        | (Ok f, pos) -> "ok " ^ frame_str f ^ " pos=" ^ string_of_n pos
        | (Err (Unknown ty), pos) -> "err unknown:" ^ string_of_n ty ^ " pos=" ^ string_of_n pos
        | (Err e, _) -> "err " ^ ferr_str e
-       | (Panic s, _) -> "panic " ^ string_of_n s)
+       | (Panic s, _) -> "panic " ^ string_of_n s) in
+      let s = (match first_step settings_verdict v with
+       | S1Need -> "err incomplete:*"
+       | S1Frame (f, pos) -> "ok " ^ frame_str f ^ " pos=" ^ string_of_n pos
+       | S1Bad PCMalformed -> "err malformed"
+       | S1Bad (PCForbidden ty) -> "err unsupported:" ^ string_of_n ty
+       | S1Bad (PCSettings _) -> "err settings"
+       | S1Skip (ty, pos) -> "err unknown:" ^ string_of_n ty ^ " pos=" ^ string_of_n pos) in
+      m ^ " | " ^ s
+  | ["hc"; site; h; ending] ->
+      (* the connection error code raised when these bytes arrive on a request stream (site s/c) or, after the stream
+         type and a SETTINGS frame, on the control stream (site ctl); `-`: no frame-layer error *)
+      let v = bytes_of_hex h in
+      let en = (match ending with "F" -> Finished | _ -> Open) in
+      let acts = [Arrive (Chunk v)] @ (if en = Finished then [Arrive Fin] else []) @
+                 List.init (2 * List.length v + 4) (fun _ -> CallAuto) in
+      let (os, _) = run acts (fs_new []) false in
+      let code_of e = if site = "ctl" then fserr_code_ctl e else fserr_code e in
+      let m = List.fold_left (fun acc o -> match o with
+        | ONext (Ready (Err e)) | OData (Ready (Err e)) -> code_str (code_of e)
+        | _ -> acc) "-" os in
+      let (_, tl) = frame_outcome settings_verdict v en in
+      "code " ^ m ^ " | code " ^ code_str (tail_code tl)
   | ["fe"; k] ->
       let c = (match k with
         | "malformed" -> perr_code PK_Malformed | "forbidden" -> perr_code PK_ForbiddenFrame
